@@ -15,6 +15,7 @@ An unknown cursor prints `nocursor`; a panic prints `panic` and ends the line.
 events: append[:<dlen>] → ok      connect:<f> → full:<H> | resume:<id> | end:<id> | notfound-full:<H> | noop
   deliver:<f> → file:<id> | filesdone | send:<id> | pop:<id> | idle | oob | noop        cut:<f> → ok | noop
   st → n=<leader records> f<k>=<curId>/<conn>/[applied ids] …
+  setid:<f>:<id> → ok   (driver-only: follower f arrives with a directory whose last applied record is <id>; used by the process-level differential)
 -/
 namespace Driver
 open Slock.Repl
@@ -102,9 +103,17 @@ def rSRun : Sync → List String → List String → List String
   | _, [], acc => acc.reverse
   | s, e :: es, acc =>
     if e == "st" then rSRun s es (rShowSync s :: acc)
-    else match rParseEv e with
-      | none => ("bad-op" :: acc).reverse
-      | some ev => let r := sstep s ev; rSRun r.1 es (rShowSObs r.2 :: acc)
+    else match e.splitOn ":" with
+      | ["setid", f, i] =>
+        -- driver-only: follower f comes with a (stale) directory whose last applied record is i (0 = empty directory)
+        match f.toNat?, i.toNat? with
+        | some f, some i =>
+          rSRun { s with fols := setF s.fols f { Fol.new with curId := i, log := List.range' 1 i } } es ("ok" :: acc)
+        | _, _ => ("bad-op" :: acc).reverse
+      | _ =>
+        match rParseEv e with
+        | none => ("bad-op" :: acc).reverse
+        | some ev => let r := sstep s ev; rSRun r.1 es (rShowSObs r.2 :: acc)
 
 def handleRepl : List String → Option String
   | ["replsync", b, m, evs] => do
